@@ -148,6 +148,41 @@ def renamed_cmap_section(ctx):
                 break
 
 
+def notdef_option_section(ctx):
+    """the notdefGlyph option on sources WITHOUT a .notdef: the given glyph -- whatever it is called in the font it comes
+    from -- becomes glyph 0 under the name .notdef; the glyph order is .notdef, the stored order, the rest sorted; the
+    character map still reaches every code point (also the one of the glyph that would otherwise sit at index 0)"""
+    import ufo2ft
+    from fontTools.ttLib import TTFont
+    sq = lambda d: [[(Fr(0), Fr(0), "line"), (Fr(d), Fr(0), "line"), (Fr(d), Fr(d), "line"), (Fr(0), Fr(d), "line")]]
+    for i in range(ctx.budget(8, 16)):
+        lib = ["ufoLib2", "defcon"][i % 2]
+        flavor = ["ttf", "otf"][(i // 2) % 2]
+        given = ["missing", ".notdef", "zzz.box", "a.alt"][(i // 4) % 4]
+        glyphs = [{"name": n, "unicodes": [u] if u else [], "width": 400 + 10 * k, "contours": sq(50 + k), "components": [], "anchors": []}
+                  for k, (n, u) in enumerate((("b", 0x62), ("a", 0x61), ("c.alt", None), ("zeta", 0x3B6), ("nbspace", 0xA0)))]
+        desc = {"glyphs": glyphs, "glyphOrder": ["nbspace", "b", "a"]}
+        donor = build_font({"glyphs": [{"name": given, "unicodes": [], "width": 777, "contours": sq(333), "components": [], "anchors": []}]}, lib)
+        case = {"font": jsonable(desc), "lib": lib, "flavor": flavor, "notdefGlyph": "a glyph named %r, advance 777" % given}
+        ctx.count(); ctx.klass("notdefGlyph option: glyph named " + given); ctx.nontriv(("ndo", i, ctx.scale))
+        try:
+            tt = (ufo2ft.compileTTF if flavor == "ttf" else ufo2ft.compileOTF)(build_font(desc, lib), notdefGlyph=donor[given], useProductionNames=False)
+            mem = tt.getGlyphOrder()
+            b = io.BytesIO(); tt.save(b); tt = TTFont(io.BytesIO(b.getvalue()))
+        except Exception as e:
+            ctx.spec_failure(case, "compile raised %s: %s\n%s" % (type(e).__name__, e, traceback.format_exc()[-800:]))
+            continue
+        want = [".notdef", "nbspace", "b", "a", "c.alt", "zeta"]
+        if mem != want or tt.getGlyphOrder() != want:
+            ctx.spec_failure(dict(case, glyph_order=mem), "glyph order %r (reloaded %r), the rule gives %r" % (mem, tt.getGlyphOrder(), want))
+            continue
+        if tt["hmtx"][".notdef"][0] != 777:
+            ctx.spec_failure(case, "glyph 0 is not the given .notdef glyph (advance %r)" % tt["hmtx"][".notdef"][0])
+        cm = tt["cmap"].getBestCmap()
+        if cm != {0x62: "b", 0x61: "a", 0x3B6: "zeta", 0xA0: "nbspace"}:
+            ctx.spec_failure(dict(case, cmap={hex(k): v for k, v in cm.items()}), "character map %r" % cm)
+
+
 def family_section(ctx):
     """the interpolatable and variable entry points (font lists, designspaces; glyf and CFF2): every compiled font -- each
     master, the variable font -- has the glyph order and the character map of the rule, over the EXPORTED glyphs: a glyph
@@ -259,6 +294,7 @@ def observe_compiled(desc, flavor, lib, explicit_order):
 def explore(ctx):
     renamed_cmap_section(ctx)
     family_section(ctx)
+    notdef_option_section(ctx)
     # ---- function level
     cases, meta = [], []
     n = ctx.budget(300, 3000)
